@@ -630,11 +630,16 @@ func (self *Node) removeMetadata() {
 }
 
 func (self *Node) getFork(index string) *Fork {
+	l := len(self.call.GetFqid()) + 5
 	i, err := strconv.Atoi(index)
 	if err == nil && i >= 0 && i < len(self.forks) {
-		return self.forks[i]
+		// Fast path for the common case.  Forks added by dynamic expansion
+		// are not necessarily at the position their name suggests, so the
+		// name must still be checked.
+		if f := self.forks[i]; len(f.fqname) > l && f.fqname[l:] == index {
+			return f
+		}
 	}
-	l := len(self.call.GetFqid()) + 5
 	for _, f := range self.forks {
 		if len(f.fqname) > l && f.fqname[l:] == index {
 			return f
